@@ -93,7 +93,6 @@ Fixpoint set_nth {A} (i : nat) (x : A) (l : list A) : list A :=
 Definition same_disk (st : ostate) (o : sobs) : bool :=
   (o_droot o =? os_root st) && seteq_t (o_dspecs o) (os_specs st).
 
-Definition mem_n (x : N) (l : list N) : bool := existsb (N.eqb x) l.
 
 Definition oracle_step (st : ostate) (i : nat) (op : aop) (o : sobs) : bool * ostate :=
   let self := nth i (os_croots st) 0 in
@@ -146,10 +145,120 @@ Fixpoint expand (specs : list tname) (has : list N) (l : list csobs) : obs :=
        o_froot := k_froot k; o_fhas := has' |} :: expand specs' has' rest
   end.
 
-Definition case := (input * list csobs)%type.
-
 Definition check_obs (inp : input) (os : obs) : N :=
   (if obs_eqb (model_obs inp) os then 0 else 1)
   + (if oracle inp os then 0 else 2).
 
-Definition check_case (c : case) : N := check_obs (fst c) (expand [] [] (snd c)).
+(* ---------------------------------------------------------------------- *)
+(* Journaling store: one writer; histories of Put / Rebase / Commit / Reopen
+   (graceful close + fresh journaling open, which becomes the writer) / Probe
+   (a second handle opened while the writer is open, which then tries
+   Put + Commit). *)
+Inductive jaop := JAPut (x : N) | JARebase | JACommit (cur last : rref) | JAReopen | JAProbe.
+Record jinput := { ji_univ : list N; ji_ops : list jaop }.
+
+(* result (0 ok/true, 1 false, 2 dangling, 3 other error (reopen: Close failed), 4 read-only error),
+   Root() of the writer (probe: of the second handle), chunks of the universe the writer Has,
+   probe: the second handle is read-only *)
+Record jsobs := JK { jo_res : N; jo_croot : N; jo_has : list N; jo_ro : bool }.
+
+Definition jres_code (st : jstep) (r : result) : N :=
+  match st, r with
+  | JProbe, _ => 4
+  | JReopen, RDangling => 3
+  | _, ROk => 0
+  | _, RFalse => 1
+  | _, RDangling => 2
+  | _, _ => 9
+  end.
+
+Definition jwriter_has (s : jstate) (x : chunk) : bool :=
+  match j_mem s with Some l => mem_n x l | None => false end || jtables_have s x.
+
+Definition jto_step (s : jstate) (op : jaop) : jstep :=
+  match op with
+  | JAPut x => JPut x
+  | JARebase => JRebase
+  | JACommit cur last => JCommit (resolve (fst (j_up s)) cur) (resolve (fst (j_up s)) last)
+  | JAReopen => JReopen
+  | JAProbe => JProbe
+  end.
+
+Fixpoint jrun (univ : list N) (s : jstate) (ops : list jaop) : list jsobs :=
+  match ops with
+  | [] => []
+  | op :: rest =>
+    let st := jto_step s op in
+    let '(s', r) := jstep_fn s st in
+    {| jo_res := jres_code st r;
+       jo_croot := match op with JAProbe => j_root s' | _ => fst (j_up s') end;
+       jo_has := filter (jwriter_has s') univ;
+       jo_ro := match op with JAProbe => true | _ => false end |} :: jrun univ s' rest
+  end.
+
+Definition jmodel_obs (inp : jinput) : list jsobs := jrun (ji_univ inp) jinit (ji_ops inp).
+
+Definition jsobs_eqb (a b : jsobs) : bool :=
+  (jo_res a =? jo_res b) && (jo_croot a =? jo_croot b) && beq_bytes (jo_has a) (jo_has b)
+  && Bool.eqb (jo_ro a) (jo_ro b).
+
+Fixpoint jobs_eqb (a b : list jsobs) : bool :=
+  match a, b with
+  | [], [] => true
+  | x :: a', y :: b' => jsobs_eqb x y && jobs_eqb a' b'
+  | _, _ => false
+  end.
+
+(* The property on an observed journaling history: the journal's root is a
+   CAS register driven by the single writer; a Commit that answers true must
+   find it equal to last and leave it equal to cur; nothing else moves it; the
+   writer can always read every acknowledged chunk; a reopen sees exactly the
+   register and every acknowledged chunk; a second handle is read-only, sees
+   the register and cannot commit. *)
+Record jostate := { jos_reg : N; jos_self : N; jos_puts : list N; jos_acked : list N }.
+
+Definition joracle_step (st : jostate) (op : jaop) (o : jsobs) : bool * jostate :=
+  let '(ok, st') :=
+    match op with
+    | JAPut x =>
+      (jo_croot o =? jos_self st,
+       {| jos_reg := jos_reg st; jos_self := jos_self st;
+          jos_puts := if jo_res o =? 0 then x :: jos_puts st else jos_puts st; jos_acked := jos_acked st |})
+    | JARebase => (jo_croot o =? jos_self st, st)
+    | JACommit cur last =>
+      let cur := resolve (jos_self st) cur in
+      let last := resolve (jos_self st) last in
+      if jo_res o =? 0 then
+        (match reg_cas (jos_reg st) cur last with (v, true) => (jo_croot o =? v) | (_, false) => false end,
+         {| jos_reg := cur; jos_self := jo_croot o; jos_puts := jos_puts st; jos_acked := jos_puts st ++ jos_acked st |})
+      else (jo_croot o =? jos_self st, st)
+    | JAReopen =>
+      (jo_croot o =? jos_reg st,
+       {| jos_reg := jos_reg st; jos_self := jo_croot o; jos_puts := []; jos_acked := jos_acked st |})
+    | JAProbe => (jo_ro o && negb (jo_res o =? 0) && (jo_croot o =? jos_reg st), st)
+    end in
+  (ok && forallb (fun x => mem_n x (jo_has o)) (jos_acked st'), st').
+
+Fixpoint joracle_run (st : jostate) (ops : list jaop) (os : list jsobs) : bool :=
+  match ops, os with
+  | [], [] => true
+  | op :: ops', o :: os' => let '(ok, st') := joracle_step st op o in ok && joracle_run st' ops' os'
+  | _, _ => false
+  end.
+
+Definition joracle (inp : jinput) (os : list jsobs) : bool :=
+  joracle_run {| jos_reg := 0; jos_self := 0; jos_puts := []; jos_acked := [] |} (ji_ops inp) os.
+
+Definition jcheck_obs (inp : jinput) (os : list jsobs) : N :=
+  (if jobs_eqb (jmodel_obs inp) os then 0 else 1) + (if joracle inp os then 0 else 2).
+
+Inductive case := CDir (i : input) (o : list csobs) | CJrn (i : jinput) (o : list jsobs).
+
+Definition check_case (c : case) : N :=
+  match c with
+  | CDir i o => check_obs i (expand [] [] o)
+  | CJrn i o => jcheck_obs i o
+  end.
+
+Definition model_obs_any (c : case) : obs + list jsobs :=
+  match c with CDir i _ => inl (model_obs i) | CJrn i _ => inr (jmodel_obs i) end.
